@@ -61,7 +61,6 @@ impl OutlineSink for NullSink {
 /// cross-table consistency of a written font and "the library can load it and query every glyph":
 /// returns the list of violated clauses (empty = consistent)
 fn consistency(bytes: &[u8], min_glyphs: usize) -> Vec<String> {
-    let mut flags = vec![];
     let fd = match ReadScope::new(bytes).read::<FontData<'_>>() {
         Ok(f) => f,
         Err(_) => return vec!["reload-failed".to_string()],
@@ -70,7 +69,16 @@ fn consistency(bytes: &[u8], min_glyphs: usize) -> Vec<String> {
         Ok(p) => p,
         Err(_) => return vec!["reload-failed".to_string()],
     };
-    let get = |t: u32| p.table_data(t).ok().flatten().map(|c| c.into_owned());
+    let mut flags = consistency_of(&|t: u32| p.table_data(t).ok().flatten().map(|c| c.into_owned()), min_glyphs);
+    if allsorts::Font::new(p).is_err() {
+        flags.push("font-new-failed".to_string());
+    }
+    flags
+}
+
+/// the same clauses on any source of tables (a written font, or the tables a WOFF2 provider hands out)
+fn consistency_of(get: &dyn Fn(u32) -> Option<Vec<u8>>, min_glyphs: usize) -> Vec<String> {
+    let mut flags = vec![];
     let head = get(tag::HEAD).and_then(|d| ReadScope::new(&d).read::<HeadTable>().ok());
     let maxp = get(tag::MAXP).and_then(|d| ReadScope::new(&d).read::<MaxpTable>().ok());
     let (head, maxp) = match (head, maxp) {
@@ -155,9 +163,6 @@ fn consistency(bytes: &[u8], min_glyphs: usize) -> Vec<String> {
             }
             Err(_) => flags.push("cff-unreadable".to_string()),
         }
-    }
-    if allsorts::Font::new(p).is_err() {
-        flags.push("font-new-failed".to_string());
     }
     flags
 }
@@ -257,18 +262,28 @@ pub fn run(input: &str) -> String {
                 Err(_) => return "err".to_string(),
             };
             let tags: Vec<u32> = p.table_tags().unwrap_or_default();
+            // the synthetic fonts are not complete fonts (no cmap, arbitrary component ids, hmtx passed through
+            // as generated): only the clauses the WOFF2 reconstruction itself is responsible for are judged:
+            // head.indexToLocFormat / loca / glyf agreement
+            let mine = |f: &String| f.starts_with("loca-") || f == "glyf-unreadable" || f == "reload-failed";
+            // (a) the tables as the provider hands them out
+            let prov_flags: Vec<String> =
+                consistency_of(&|t: u32| p.table_data(t).ok().flatten().map(|c| c.into_owned()), 1).into_iter().filter(mine).collect();
+            if !prov_flags.is_empty() {
+                return format!("prov:{}", prov_flags.join("+"));
+            }
+            // (b) the font whole_font writes from them
             match subset::whole_font(&p, &tags) {
                 Ok(b) => {
-                    // the synthetic fonts are not complete fonts (no cmap, arbitrary component ids, hmtx passed
-                    // through as generated): only the clauses the WOFF2 reconstruction itself is responsible
-                    // for are judged: head.indexToLocFormat / loca / glyf agreement
-                    let flags: Vec<String> = consistency(&b, 1)
-                        .into_iter()
-                        .filter(|f| f.starts_with("loca-") || f == "glyf-unreadable" || f == "head-or-maxp-unreadable" || f == "reload-failed")
-                        .collect();
+                    let flags: Vec<String> = consistency(&b, 1).into_iter().filter(mine).collect();
                     format!("ok:{}:{}", hex(&b), flags.join("+"))
                 }
-                Err(_) => "err".to_string(),
+                Err(e) => {
+                    if std::env::var_os("C09_DEBUG").is_some() {
+                        eprintln!("whole_font: {:?}", e);
+                    }
+                    "err".to_string()
+                }
             }
         }
         "I" => {
